@@ -214,6 +214,7 @@ def _group_def(g):
                             vectors={v["attr"]: _vector_def(v) for v in g["vectors"]})
 
 
+NAME_PROPERTY_DRIVERS = [0]    # drivers built whose public name comes from an overridden `name` property
 OVERRIDDEN_HANDLERS = [0]      # driver chains built whose leaf overrides a vetoing Write handler of its base
 
 
@@ -227,6 +228,12 @@ def build(spec, extra_ns=None, leaf_hook=None):
     last = len(spec["levels"]) - 1
     all_defs = {}
     guarded = []
+    import json
+    import zlib
+    h = zlib.crc32(json.dumps(spec, sort_keys=True, default=repr).encode())       # a function of the definition: replays build the same classes
+    # How the device gets its name: a class attribute (default), or - every fourth generated definition - a `name` property the leaf
+    # class overrides (a name derived from a serial number, say).  The name everybody sees is the public one.
+    name_style = spec.get("name_style") or ("property" if h % 4 == 3 and not spec.get("no_class_name") else "class")
     for li, lv in enumerate(spec["levels"]):
         ns = {} if spec.get("no_class_name") else {"name": spec["name"]}
         for g in lv["groups"]:
@@ -249,7 +256,10 @@ def build(spec, extra_ns=None, leaf_hook=None):
             elif li == last and guarded:
                 def _vf_confirm_write(self, event):
                     pass
-                ns["_vf_confirm_write"] = _ev.on(guarded, _ev.Write)(_vf_confirm_write) if n % 2 else _vf_confirm_write
+                ns["_vf_confirm_write"] = _ev.on(guarded, _ev.Write)(_vf_confirm_write) if h % 2 else _vf_confirm_write
+        if li == last and name_style == "property":
+            ns["name"] = property(lambda self, _n=spec["name"]: _n)
+            NAME_PROPERTY_DRIVERS[0] += 1
         if li == last:
             if extra_ns:
                 ns.update(extra_ns)
